@@ -69,12 +69,14 @@ func checkC10(c *Ctx) {
 }
 
 // c10R5: an unauthenticated datagram leaves no trace in an established session.
-func c10R5(c *Ctx) {
+func c10R5(c *Ctx) { sessionStateAfterAuth(c, "C10.R5") }
+
+func sessionStateAfterAuth(c *Ctx, rule string) {
 	P := c.P
-	c.Rule("C10.R5", "an established session changes only on authentic packets: inside readPacketLocked every store to a SessionState field and every call that mutates the replay window lies after a nil AEAD Open on the path; in both handleSessionMessage functions every store to a SessionState field lies after readPacketLocked returned nil (a forged datagram with a live session id must not move the window, the counters or the address: it would wedge the session) (E1 order)")
+	c.Rule(rule, map[string]string{"C10.R5": "", "C03.R8": "(shared with C10.R5) "}[rule]+ "an established session changes only on authentic packets: inside readPacketLocked every store to a SessionState field and every call that mutates the replay window lies after a nil AEAD Open on the path; in both handleSessionMessage functions every store to a SessionState field lies after readPacketLocked returned nil (a forged datagram with a live session id must not move the window, the counters or the address: it would wedge the session) (E1 order)")
 	rd := P.Func("transport", "(*SessionState).readPacketLocked")
 	if rd == nil {
-		c.Undecided("C10.R5", "transport.(*SessionState).readPacketLocked", "function not found")
+		c.Undecided(rule, "transport.(*SessionState).readPacketLocked", "function not found")
 		return
 	}
 	ssT := P.Field("transport", "SessionState", "window")
@@ -103,13 +105,13 @@ func c10R5(c *Ctx) {
 		if f := P.Func("transport", n); f != nil {
 			targets = append(targets, target{f, hopID("transport", "SessionState", "readPacketLocked")})
 		} else {
-			c.Undecided("C10.R5", "transport."+n, "function not found")
+			c.Undecided(rule, "transport."+n, "function not found")
 		}
 	}
 	for _, t := range targets {
 		fs := newFailSet()
 		nEv := 0
-		ok := walkAllOpts(c, "C10.R5", t.fn, PathOpts{MaxVisits: 2}, func(p *Path) {
+		ok := walkAllOpts(c, rule, t.fn, PathOpts{MaxVisits: 2}, func(p *Path) {
 			last := len(p.Blocks) - 1
 			var auth *ssa.Call
 			p.ForEach(func(i int, ins ssa.Instruction) bool {
@@ -140,10 +142,10 @@ func c10R5(c *Ctx) {
 			})
 		})
 		if ok {
-			fs.report(c, "C10.R5", FuncName(t.fn), []string{"state-after-auth"}, P.Pos(t.fn.Pos()), "every session-state change follows successful authentication on its path")
+			fs.report(c, rule, FuncName(t.fn), []string{"state-after-auth"}, P.Pos(t.fn.Pos()), "every session-state change follows successful authentication on its path")
 		}
 		if t.fn == rd {
-			c.Floor("C10.R5", "state-changing events in readPacketLocked", nEv, 1)
+			c.Floor(rule, "state-changing events in readPacketLocked", nEv, 1)
 		}
 	}
 }
